@@ -33,6 +33,12 @@ def payload(rng, k):
     it (the code drops those: an escape that runs before the drop can be undone by it, e.g. `]]\x01>` or `<\x01script>`)"""
     p = rng.choice(PAYLOADS + ["]]\x01></style><script>MK()</script>", "<\x01script>MK</script>", "&\ufffelt;MK", "&#60;MK&#62;", "&#x3c;MK&#x3e;", "&#0;MK", "&#+60;MK"])
     p = p.replace("MK", "MK%dq" % k)
+    if rng.chance(1, 5):
+        # look-alikes of the markup characters (fullwidth and small forms): a normalisation that runs after the escape turns
+        # them into the real thing
+        table = rng.choice([{"<": "＜", ">": "＞", "&": "＆", '"': "＂", "'": "＇", "/": "／", ";": "；"},
+                            {"<": "﹤", ">": "﹥", "&": "﹠", ";": "﹔"}])
+        p = "".join(table.get(c, c) for c in p)
     if rng.chance(1, 3):
         cs = list(p)
         for _ in range(rng.range(1, 2)):
